@@ -885,6 +885,49 @@ def check_tier2_c(case):
     return _judge(case, 2)
 
 
+def _gen_t2c_heavy(ctx):
+    heavy = [
+        {"cls": "GraphPartitioning", "edges": [[0, 1], [0, 2], [1, 2], [0, 3], [1, 3], [2, 3], [4, 5]],
+         "weights": [10, 10, 10, 10, 10, 10, 1]},
+        {"cls": "GraphPartitioning", "edges": [[0, 1], [1, 2], [0, 2], [3, 4], [2, 3], [4, 5]], "weights": [3, 3, 3, 1, 1, 1]},
+    ]
+    for inst in heavy:
+        for form in ("quso", "qubo"):
+            yield {"inst": inst, "form": form, "B": 1}
+
+
+@clause("C10.tier2.graph_partitioning_heavy_edges", "C10", gen=_gen_t2c_heavy, nontrivial=_nontrivial_instance)
+def check_tier2_c_heavy(case):
+    """C10.tier2.graph_partitioning for documented *weighted* graphs with edge weights above 1 (dict input): the
+    default A is derived from the number of incident edges, not from their weight."""
+    f = _judge(case, 2)
+    if isinstance(f, Fail):
+        f.key = "tier2-heavy-edge-weights"
+    return f
+
+
+def _gen_bilp_large(ctx):
+    yield {"c": [1, 1], "S": [[1000000, 1]], "b": [1000001], "x": [1, 0]}
+    yield {"c": [1, 1], "S": [[1000000, 1]], "b": [1000001], "x": [1, 1]}
+    yield {"c": [0, 1, 1], "S": [[10 ** 7, 3, 1], [1, 1, 0]], "b": [10 ** 7 + 1, 1], "x": [1, 0, 0]}
+
+
+@clause("C10.bilp_valid_large_coefficients", "C10", gen=_gen_bilp_large, nontrivial=lambda c: True)
+def check_bilp_large(case):
+    """BILP.is_solution_valid accepts exactly the x with S x = b, also when the integer entries are large (a relative
+    tolerance would accept 1000000 for 1000001)."""
+    q = qv()
+    P = q.problems.BILP(list(case["c"]), [list(r) for r in case["S"]], list(case["b"]))
+    x = list(case["x"])
+    want = all(sum(r[i] * x[i] for i in range(len(x))) == bj for r, bj in zip(case["S"], case["b"]))
+    got = bool(P.is_solution_valid(x))
+    if got != want:
+        return Fail("BILP(c=%r, S=%r, b=%r).is_solution_valid(%r) = %r, S x = %r" % (
+            case["c"], case["S"], case["b"], x, got, [sum(r[i] * x[i] for i in range(len(x))) for r in case["S"]]),
+            key="bilp-valid-relative-tolerance")
+    return None
+
+
 @clause("C10.tier2.sequencing_partitioning", "C10", gen=_gen_t2b, nontrivial=_nontrivial_instance)
 def check_tier2_b(case):
     """JobSequencing, GraphPartitioning (default A, which the classes derive from B; B in {1, 2}) and
